@@ -67,6 +67,20 @@ class C25(Check):
                     pre[i] = 0
                 seen.add(a)
             out.append({"pre": pre, "range": (lo, hi), "seed": rng.randrange(1 << 30), "mode": rng.choice(["gather", "gather", "scan"])})
+        for k in range(25 if self.tier == "quick" else 300):
+            n = rng.randint(3, 9)
+            h = rng.randint(1, n - 1)
+            lo = 1000
+            hi = lo + n + rng.randint(0, 2)
+            # the hot-plugged front part: unaddressed terminals first, then terminals that still carry an address of the range
+            front = [0] * rng.randint(1, h) + [rng.randint(lo, hi) for _ in range(h)]
+            pre = front[:h] + [rng.choice([0, 0, rng.randint(lo, hi)]) for _ in range(n - h)]
+            seen = set()
+            for i, a in enumerate(pre):
+                if a in seen:
+                    pre[i] = 0
+                seen.add(a)
+            out.append({"pre": pre, "range": (lo, hi), "seed": rng.randrange(1 << 30), "mode": "rescan", "hidden": h})
         return out
 
     def run_impl(self, case):
@@ -173,12 +187,30 @@ class C25(Check):
                     for _ in range(min(2, max(0, free_left))):
                         held.append(await asyncio.wait_for(ec.find_free_address(), 120))
                     res = res + held
+                elif case["mode"] == "rescan":
+                    # hot-plug: the first scan sees only the rear part of the bus; then further terminals appear IN FRONT (some still
+                    # carrying a station address from an earlier life, unaddressed ones before them) and the bus is scanned again
+                    h = case["hidden"]
+                    bus.terminals = sims[h:]
+                    await asyncio.wait_for(ec.scan_serial_numbers(), 120)
+                    # the addresses the newcomers carry are addresses of the range that nobody has at this moment (a terminal coming
+                    # with an address that the master has just given to another one is a conflict no master can avoid)
+                    lo_, hi_ = case["range"]
+                    free = [a for a in range(lo_, hi_ + 1) if a not in ec.used_addresses and a not in {x.station for x in sims[h:]}]
+                    for x in sims[:h]:
+                        if x.station:
+                            x.station = free.pop(rng.randrange(len(free))) if free else 0
+                    pre_eff = [x.station for x in sims[:h]] + list(case["pre"][h:])
+                    bus.terminals = sims
+                    d = await asyncio.wait_for(ec.scan_serial_numbers(), 120)
+                    res = [d.get(100 + i) for i in range(n)]
                 else:
                     d = await asyncio.wait_for(ec.scan_serial_numbers(), 120)
                     res = [d.get(100 + i) for i in range(n)]
             finally:
                 ec._sendloop_task.cancel()
-            return {"res": res, "events": events, "used": sorted(ec.used_addresses), "bus": [s.station for s in sims]}
+            return {"res": res, "events": events, "used": sorted(ec.used_addresses), "bus": [s.station for s in sims],
+                    **({"pre_eff": pre_eff} if case["mode"] == "rescan" else {})}
         ethercat.randint = fake_randint
         try:
             return asyncio.run(go())
@@ -222,7 +254,7 @@ class C25(Check):
         if isinstance(o, Err):
             return f"failed: {o.what}"
         lo, hi = case["range"]
-        pre = case["pre"]
+        pre = o.get("pre_eff", case["pre"])
         res = o["res"]
         given = [r for a, r in zip(pre, res) if not a] + list(res[len(pre):])      # the latter: addresses reserved with find_free_address
         if case.get("damage"):
@@ -254,7 +286,7 @@ class C25(Check):
 
     def rule(self):
         return ("buses of 1-8 terminals (and some of 16-34: more concurrent probes than the 15 datagrams of a frame), each unaddressed or pre-assigned (inside or outside the range), address range only 0-3 larger than the terminal count so that "
-                "draws collide, concurrent assigned_address tasks (or scan_serial_numbers, also after addresses were reserved ahead and after a second connect() of the same master object), scripted randint and random response delays; a quarter of the cases after a refused over-long request on the same connection; 30% of the concurrent cases with one response frame cut short (requests in it may fail, addresses handed out are still checked); non-trivial = at least two unaddressed terminals")
+                "draws collide, concurrent assigned_address tasks (or scan_serial_numbers, also after addresses were reserved ahead and after a second connect() of the same master object), scripted randint and random response delays; plus rescans after a hot-plug (the first scan sees the rear part of the bus, then terminals appear in front - unaddressed ones before ones that carry an address - and the bus is scanned again); a quarter of the cases after a refused over-long request on the same connection; 30% of the concurrent cases with one response frame cut short (requests in it may fail, addresses handed out are still checked); non-trivial = at least two unaddressed terminals")
 
     def distribution(self, cases, observed):
         d = {"draws": 0, "collisions": 0, "probes_answered": 0, "scan_mode": 0}
@@ -273,10 +305,12 @@ class C25(Check):
         return d
 
     def describe(self, case):
-        return {"pre": case["pre"], "range": list(case["range"]), "seed": case["seed"], "mode": case["mode"], **({"damage": case["damage"]} if case.get("damage") else {})}
+        return {"pre": case["pre"], "range": list(case["range"]), "seed": case["seed"], "mode": case["mode"], **({"damage": case["damage"]} if case.get("damage") else {}),
+                **({"hidden": case["hidden"]} if "hidden" in case else {})}
 
     def case_from_json(self, w):
-        return {"pre": w["pre"], "range": tuple(w["range"]), "seed": w["seed"], "mode": w["mode"], **({"damage": w["damage"]} if w.get("damage") else {})}
+        return {"pre": w["pre"], "range": tuple(w["range"]), "seed": w["seed"], "mode": w["mode"], **({"damage": w["damage"]} if w.get("damage") else {}),
+                **({"hidden": w["hidden"]} if "hidden" in w else {})}
 
 
 _orig = C25.run_impl
